@@ -182,14 +182,14 @@ func c09(x *mon.Ctx) {
 	x.Require("truncation", 0, 1000, 1000)
 	x.Require("sizefield", 4, 100, 100)
 	x.Require("trailing", 64, 0, 64)
-	x.Require("pattern", 7, 0, 7)
+	x.Require("pattern", 15, 0, 15)
 
 	// messages
 	nm := x.Pick(300, 20000)
 	x.Each(nm, func(i int) {
 		r := x.Rand(fmt.Sprint("msg", i))
 		auth := []int{0, 1, 2, 32, 65535, r.Intn(65536), r.Intn(300)}[r.Intn(7)]
-		chain := []int{0, 1, r.Intn(8193), 3000}[r.Intn(4)]
+		chain := []int{0, 1, r.Intn(8193), 3000, 3000, 65535, 65536, 65537 + r.Intn(70000)}[r.Intn(8)]
 		extra := []int{0, 0, 1, r.Intn(4000)}[r.Intn(4)]
 		p := patternParts(i, auth, chain, extra)
 		if i%2 == 1 {
